@@ -197,22 +197,24 @@ Definition crash_free (h : hop) : Prop :=
 
 (* The invariant between steps: the event log is empty there. *)
 Definition winv (b : nat) (D : key -> Prop) (s : st) : Prop :=
-  inv b (supply s) NX D (set_evs s []).
+  inv b (supply s, []) NX D (set_evs s []).
 
 Lemma inv_set_plan_nil b base X D s : inv b base X D s -> inv b base X D (set_plan s []).
 Proof. intro I. dinv I. constructor; sst; try assumption. reflexivity. Qed.
 
+Ltac ev_nil := exists (@nil ev); cbn [fst snd app draws wf_evs]; split; [reflexivity | split; [exact Logic.I | lia]].
+
 Lemma winv_of_inv b base D s t : inv b base NX D s -> winv b D (set_tb (set_plan s []) t).
 Proof.
-  intro I. dinv I. unfold winv. constructor; sst; try assumption; try reflexivity. split; [exact Logic.I | simpl; lia].
+  intro I. dinv I. unfold winv. constructor; sst; try assumption; try reflexivity. ev_nil.
 Qed.
 
 Lemma winv_of_inv' b base D s : inv b base NX D s -> winv b D s.
 Proof.
-  intro I. dinv I. unfold winv. constructor; sst; try assumption; try reflexivity. split; [exact Logic.I | simpl; lia].
+  intro I. dinv I. unfold winv. constructor; sst; try assumption; try reflexivity. ev_nil.
 Qed.
 
-Lemma inv_of_winv b D s t : winv b D s -> inv b (supply s) NX D (set_tb (set_plan (set_evs s []) []) t).
+Lemma inv_of_winv b D s t : winv b D s -> inv b (supply s, []) NX D (set_tb (set_plan (set_evs s []) []) t).
 Proof. intro W. apply inv_set_tb. apply inv_set_plan_nil. exact W. Qed.
 
 Lemma inv_set_now b base X D s t : inv b base X D s -> inv b base X D (set_now s t).
@@ -221,8 +223,8 @@ Proof. intro I. dinv I. constructor; sst; assumption. Qed.
 Lemma inv_set_conf b base X D s c : inv b base X D s -> inv b base X D (set_conf s c).
 Proof. intro I. dinv I. constructor; sst; assumption. Qed.
 
-Lemma inv_supply_ge b base X D s : inv b base X D s -> (base <= supply s)%N.
-Proof. intro I. destruct (i_ev _ _ _ _ _ I) as [_ H]. lia. Qed.
+Lemma inv_supply_ge b base X D s : inv b base X D s -> (fst base <= supply s)%N.
+Proof. intro I. destruct (i_ev _ _ _ _ _ I) as (new & _ & _ & H). lia. Qed.
 
 (* what a step guarantees, besides the invariant *)
 Definition obs_ok (D : key -> Prop) (n : N) (o : obs) : Prop :=
@@ -242,7 +244,7 @@ Definition crash_state (s s3 : st) (n : nat) : st :=
   restart (set_supply (set_graves (set_store (set_evs s3 (rev pre)) stor) gr) (supply s + count_draws pre)%N).
 
 Lemma crash_state_winv b D s0 s3 n :
-  winv b D s0 -> inv b (supply s0) NX D s3 ->
+  winv b D s0 -> inv b (supply s0, []) NX D s3 ->
   winv (length (heap s3)) D (crash_state (set_evs s0 []) (set_tb (set_plan s3 []) []) n) /\
   (supply s0 <= supply (crash_state (set_evs s0 []) (set_tb (set_plan s3 []) []) n))%N /\
   wf_fwd D (supply s0) (rev (evs (crash_state (set_evs s0 []) (set_tb (set_plan s3 []) []) n))).
@@ -250,7 +252,7 @@ Proof.
   intros W I. unfold crash_state. sst.
   set (pre := ev_prefix (rev (evs s3)) n).
   assert (Hpre : wf_fwd D (supply s0) pre).
-  { apply wf_fwd_prefix. apply wf_evs_fwd. apply (i_ev _ _ _ _ _ I). }
+  { apply wf_fwd_prefix. apply wf_evs_fwd. apply (inv_ev0 _ _ _ _ _ I). }
   assert (Hs0 : store_ok D (supply s0) (store s0)).
   { split; [apply (i_nds _ _ _ _ _ W)|]. split; [apply (i_fs _ _ _ _ _ W) | apply (i_Ds _ _ _ _ _ W)]. }
   pose proof (apply_evs_store_ok D pre (supply s0) (store s0) (graves s0) Hpre Hs0) as Hst.
@@ -267,7 +269,7 @@ Proof.
   - exact H2.
   - intros o ob Hge Ho. apply hget_Some_lt in Ho. unfold hget in *. sst. lia.
   - intros d k [].
-  - split; [exact Logic.I | simpl; lia].
+  - ev_nil.
   - intros k Hk. eapply kd_mono; [|apply (i_Dd _ _ _ _ _ W k Hk)]. sst. lia.
   - exact H3.
   - intros kD k' o ob _ Hl. discriminate.
@@ -338,7 +340,7 @@ Proof.
   intros W Hpl. rewrite step_req_eq. cbv zeta. rewrite Hpl.
   pose proof (inv_of_winv b D (w_st w) (rq_tb r) W) as I1.
   match goal with |- context [req_body ?s1 ?q ?sc] =>
-    destruct (req_body_inv b (supply (w_st w)) D s1 q sc I1) as (s3 & rc & st0 & sr & fin & cks & E & I3 & Hst & Hfin & Hck)
+    destruct (req_body_inv b (supply (w_st w), []) D s1 q sc I1) as (s3 & rc & st0 & sr & fin & cks & E & I3 & Hst & Hfin & Hck)
   end.
   rewrite E. destruct (rq_crash r) as [n|].
   - destruct (crash_state_winv b D (w_st w) s3 n W I3) as (W4 & Hsup & Hev). unfold crash_state in W4, Hsup, Hev.
@@ -349,14 +351,14 @@ Proof.
   - exists b. cbn [fst snd w_st]. split; [eapply winv_of_inv; exact I3|]. split; [reflexivity|].
     split; [sst; apply (inv_supply_ge _ _ _ _ _ I3)|].
     unfold obs_ok, mk_obs. cbn [ob_evs ob_start ob_final ob_cookies]. sst.
-    split; [apply wf_evs_fwd; apply (i_ev _ _ _ _ _ I3)|]. split; [exact Hst|]. split; [exact Hfin | exact Hck].
+    split; [apply wf_evs_fwd; apply (inv_ev0 _ _ _ _ _ I3)|]. split; [exact Hst|]. split; [exact Hfin | exact Hck].
 Qed.
 
-Lemma fin_ok b D s0 s1 : inv b (supply s0) NX D s1 ->
+Lemma fin_ok b D s0 s1 : inv b (supply s0, []) NX D s1 ->
   winv b D s1 /\ (supply s0 <= supply s1)%N /\ wf_fwd D (supply s0) (rev (evs s1)).
 Proof.
   intro I. split; [eapply winv_of_inv'; exact I|]. split; [apply (inv_supply_ge _ _ _ _ _ I)|].
-  apply wf_evs_fwd. apply (i_ev _ _ _ _ _ I).
+  apply wf_evs_fwd. apply (inv_ev0 _ _ _ _ _ I).
 Qed.
 
 Lemma obs_ok_void D n rc s jar : wf_fwd D n (rev (evs s)) -> obs_ok D n (mk_obs rc None [] [] None s jar).
@@ -365,7 +367,7 @@ Proof.
   split; [exact H|]. repeat split; try discriminate. apply cks_ok_nil.
 Qed.
 
-Lemma step_void b D s0 s1 : inv b (supply s0) NX D s1 -> forall jars rc jar,
+Lemma step_void b D s0 s1 : inv b (supply s0, []) NX D s1 -> forall jars rc jar,
   exists b', winv b' D (w_st (mkWorld s1 jars)) /\ b' = b /\
     (supply s0 <= supply (w_st (mkWorld s1 jars)))%N /\ obs_ok D (supply s0) (mk_obs rc None [] [] None s1 jar).
 Proof.
@@ -383,33 +385,33 @@ Proof.
   intros W Hff. destruct h as [r|d|tbl pl| | |u tbl pl|u tbl pl|c]; cbn [ff_hop crash_free] in *.
   - apply step_req; assumption.
   - cbn [step fst snd].
-    assert (I1 : inv b (supply (w_st w)) NX D (fire_due (set_now (set_evs (w_st w) []) (now (set_evs (w_st w) []) + d)%Z))).
+    assert (I1 : inv b (supply (w_st w), []) NX D (fire_due (set_now (set_evs (w_st w) []) (now (set_evs (w_st w) []) + d)%Z))).
     { apply fire_due_inv. apply inv_set_now. exact W. }
     destruct (step_void _ _ _ _ I1 (w_jars w) RVoid CNone) as (b' & A & -> & B & C). exists b. split; [exact A|]. split; [intros _; reflexivity|]. split; [exact B | exact C].
   - subst pl. cbn [step fst snd].
-    assert (I1 : inv b (supply (w_st w)) NX D (set_tb (set_plan (purge (set_tb (set_plan (set_evs (w_st w) []) []) tbl)) []) [])).
+    assert (I1 : inv b (supply (w_st w), []) NX D (set_tb (set_plan (purge (set_tb (set_plan (set_evs (w_st w) []) []) tbl)) []) [])).
     { apply inv_set_tb. apply inv_set_plan_nil. apply inv_purge. apply inv_of_winv. exact W. }
     destruct (step_void _ _ _ _ I1 (w_jars w) RVoid CNone) as (b' & A & -> & B & C). exists b. split; [exact A|]. split; [intros _; reflexivity|]. split; [exact B | exact C].
   - cbn [step fst snd].
-    assert (I1 : inv b (supply (w_st w)) NX D (set_cache (set_evs (w_st w) []) [])).
+    assert (I1 : inv b (supply (w_st w), []) NX D (set_cache (set_evs (w_st w) []) [])).
     { apply inv_set_cache_nil. exact W. }
     destruct (step_void _ _ _ _ I1 (w_jars w) RVoid CNone) as (b' & A & -> & B & C). exists b. split; [exact A|]. split; [intros _; reflexivity|]. split; [exact B | exact C].
   - cbn [step fst snd].
-    assert (I1 : inv b (supply (w_st w)) NX D (restart (set_evs (w_st w) []))).
+    assert (I1 : inv b (supply (w_st w), []) NX D (restart (set_evs (w_st w) []))).
     { unfold restart. apply inv_set_pending; [apply inv_set_cache_nil; exact W | intros d k []]. }
     destruct (step_void _ _ _ _ I1 (w_jars w) RVoid CNone) as (b' & A & -> & B & C). exists b. split; [exact A|]. split; [intros _; reflexivity|]. split; [exact B | exact C].
   - subst pl. cbn [step].
     destruct (logout_user_inv _ _ _ _ u (inv_of_winv b D (w_st w) tbl W)) as (s1 & E & I1 & _). rewrite E. cbn [fst snd].
-    assert (I2 : inv b (supply (w_st w)) NX D (fire_due (set_tb (set_plan s1 []) []))).
+    assert (I2 : inv b (supply (w_st w), []) NX D (fire_due (set_tb (set_plan s1 []) []))).
     { apply fire_due_inv. apply inv_set_tb. apply inv_set_plan_nil. exact I1. }
     destruct (step_void _ _ _ _ I2 (w_jars w) RVoid CNone) as (b' & A & -> & B & C). exists b. split; [exact A|]. split; [intros _; reflexivity|]. split; [exact B | exact C].
   - subst pl. cbn [step].
     destruct (refresh_user_inv _ _ _ _ u (inv_of_winv b D (w_st w) tbl W)) as (s1 & E & I1 & _). rewrite E. cbn [fst snd].
-    assert (I2 : inv b (supply (w_st w)) NX D (fire_due (set_tb (set_plan s1 []) []))).
+    assert (I2 : inv b (supply (w_st w), []) NX D (fire_due (set_tb (set_plan s1 []) []))).
     { apply fire_due_inv. apply inv_set_tb. apply inv_set_plan_nil. exact I1. }
     destruct (step_void _ _ _ _ I2 (w_jars w) RVoid CNone) as (b' & A & -> & B & C). exists b. split; [exact A|]. split; [intros _; reflexivity|]. split; [exact B | exact C].
   - cbn [step fst snd].
-    assert (I1 : inv b (supply (w_st w)) NX D (set_conf (set_evs (w_st w) []) c)).
+    assert (I1 : inv b (supply (w_st w), []) NX D (set_conf (set_evs (w_st w) []) c)).
     { apply inv_set_conf. exact W. }
     destruct (step_void _ _ _ _ I1 (w_jars w) RVoid CNone) as (b' & A & -> & B & C). exists b. split; [exact A|]. split; [intros _; reflexivity|]. split; [exact B | exact C].
 Qed.
@@ -470,7 +472,7 @@ Lemma sessdefs_winv b s : plan s = [] -> b <= length (heap s) -> cache_ok s -> n
 Proof.
   intros Hp Hb Hc [Hn1 Hn2] (A & B & C & E). unfold winv. constructor; sst; try assumption.
   - intros k o Hl. destruct (Hc k o Hl) as [ob [Ho Hid]]. exists ob. split; [exact Ho | left; exact Hid].
-  - split; [exact Logic.I | simpl; lia].
+  - ev_nil.
   - intros k [].
   - intros k [].
   - intros k k' o ob [].
@@ -490,6 +492,7 @@ Lemma winv_add_dead b s k : winv b ND s -> key_drawn s k ->
   lookup (cache s) k = None -> lookup (store s) k = None -> winv b (eq k) s.
 Proof.
   intros W Hk Hcn Hsn. dinv W. unfold winv. constructor; sst; try assumption.
+  - ev_nil.
   - intros k' <-. exact Hk.
   - intros k' <-. exact Hsn.
   - intros kD k' o ob <- Hl Ho. destruct (Hc k' o Hl) as [ob' [Ho' [Hid|[]]]].
@@ -586,3 +589,87 @@ Proof.
     + intros r E. apply (Hfin k r E). reflexivity.
     + intro Hin. apply (Hck k Hin). reflexivity.
 Qed.
+
+(* --- per-call use of the invariant on any state satisfying SessDefs.v's --- *)
+
+Lemma sess_inv_inv s : sess_inv s -> inv 0 (supply s, evs s) NX ND s.
+Proof.
+  intros (Hp & Hc & [Hn1 Hn2] & (A & B & C & E)). constructor; try assumption.
+  - lia.
+  - intros k o Hl. destruct (Hc k o Hl) as [ob [Ho Hid]]. exists ob. split; [exact Ho | left; exact Hid].
+  - intros k o Hin. split; [apply (A k o Hin) | lia].
+  - intros o ob _ Ho. apply (C o ob Ho).
+  - ev_nil.
+  - intros k [].
+  - intros k [].
+  - intros k k' o ob [].
+Qed.
+
+Lemma inv_sess_inv base s : inv 0 base NX ND s -> sess_inv s.
+Proof.
+  intro I. dinv I. split; [exact Hp|]. split; [|split; [split; assumption|]].
+  - intros k o Hl. destruct (Hc k o Hl) as [ob [Ho [Hx|[]]]]. exists ob. split; assumption.
+  - split; [intros k v Hin; apply (Hfc k v Hin)|]. split; [exact Hfs|]. split; [|exact Hfp].
+    intros o ob Ho. apply (Hfh o ob (Nat.le_0_l o) Ho).
+Qed.
+
+(* from any point inside a step on, an ID that is drawn and absent can be
+   declared dead *)
+Lemma inv_add_dead b base s k : inv b base NX ND s -> key_drawn s k ->
+  lookup (cache s) k = None -> lookup (store s) k = None -> inv b (supply s, evs s) NX (eq k) s.
+Proof.
+  intros I Hk Hcn Hsn. dinv I. constructor; try assumption.
+  - ev_nil.
+  - intros k' <-. exact Hk.
+  - intros k' <-. exact Hsn.
+  - intros kD k' o ob <- Hl Ho. destruct (Hc k' o Hl) as [ob' [Ho' [Hid|[]]]].
+    rewrite Ho in Ho'. injection Ho' as <-.
+    split; [intro; subst k'; congruence | rewrite Hid; intro; subst k'; congruence].
+Qed.
+
+(* --- the history theorems from the initial state --- *)
+
+Definition reach (c : cfg) (hs : list hop) : world := after (mkWorld (init_st c) []) hs.
+
+Lemma reach_winv c hs : Forall ff_hop hs -> exists b, winv b ND (w_st (reach c hs)).
+Proof.
+  intro Hff. destruct (hist_winv ND hs 0 (mkWorld (init_st c) []) (winv_init c) Hff) as (b & W & _). exists b. exact W.
+Qed.
+
+Theorem not_reissued_reach c hs1 hs2 n : Forall ff_hop hs1 -> Forall ff_hop hs2 ->
+  in_use (w_st (reach c hs1)) (KGen n) ->
+  Forall (fun o => ~ In (EvDraw n) (ob_evs o)) (run_from (reach c hs1) hs2).
+Proof.
+  intros H1 H2 Hu. destruct (reach_winv c hs1 H1) as [b W].
+  eapply not_reissued; [exact W | exact H2 |]. apply (in_use_drawn _ _ _ _ W Hu).
+Qed.
+
+Theorem stays_dead_reach c hs1 hs2 k : Forall ff_hop hs1 -> Forall ff_hop hs2 ->
+  key_drawn (w_st (reach c hs1)) k ->
+  lookup (cache (w_st (reach c hs1))) k = None -> lookup (store (w_st (reach c hs1))) k = None ->
+  lookup (cache (w_st (after (reach c hs1) hs2))) k = None /\
+  lookup (store (w_st (after (reach c hs1) hs2))) k = None /\
+  Forall (dead_obs k) (run_from (reach c hs1) hs2).
+Proof.
+  intros H1 H2 Hk Hc Hs. destruct (reach_winv c hs1 H1) as [b W]. eapply stays_dead; eassumption.
+Qed.
+
+(* non-vacuity: a session is created, destroyed by its handler in the next
+   request, and its ID is then drawn, absent from cache and store *)
+Definition cfg_ex : cfg := mkCfg 1000 1000 100 1000 10 0 true false.
+Definition hist_destroy : list hop :=
+  [HReq (mkReqStep 1 PJar true (AOther 0) 7 [SSet 1 2] [] [] None);
+   HReq (mkReqStep 1 PJar false (AOther 0) 7 [SDestroy] [] [] None)].
+
+Example stays_dead_nonvacuous :
+  Forall ff_hop hist_destroy /\
+  key_drawn (w_st (reach cfg_ex hist_destroy)) (KGen 0) /\
+  lookup (cache (w_st (reach cfg_ex hist_destroy))) (KGen 0) = None /\
+  lookup (store (w_st (reach cfg_ex hist_destroy))) (KGen 0) = None /\
+  map ob_res (run cfg_ex (hist_destroy ++ [HReq (mkReqStep 2 (PForge (CKey (KGen 0))) false (AOther 0) 7 [] [] [] None)]))
+    = [RSess; RSess; RNone].
+Proof. split; [repeat constructor|]. vm_compute. repeat split; reflexivity. Qed.
+
+Example in_use_nonvacuous :
+  in_use (w_st (reach cfg_ex [HReq (mkReqStep 1 PJar true (AOther 0) 7 [SSet 1 2] [] [] None)])) (KGen 0).
+Proof. left. vm_compute. eexists. left. reflexivity. Qed.
